@@ -88,7 +88,7 @@ func TestC06Nested(t *testing.T) {
 		ll = append(ll, &gtab.LookupTable{Meta: &gtab.LookupMetaInfo{LookupType: 4, LookupFlags: flags("ligFlags")},
 			Subtables: []gtab.Subtable{&gtab.Gsub4_1{Cov: lookups.CovTable([]glyph.ID{lFirst}), Repl: [][]gtab.Ligature{{{In: ligIn, Out: g("ligOut")}}}}}})
 
-		runNested(t, ll, gd, alpha, nCtx, "nested")
+		runNested(t, ll, gd, alpha, nCtx, "nested", nil)
 	})
 }
 
@@ -100,11 +100,11 @@ func TestC06Nested(t *testing.T) {
 func TestC06NestedCoherent(t *testing.T) {
 	rapid.Check(t, func(t *rapid.T) {
 		n := lookups.GenNested(t, lookups.NestedOptions{})
-		runNested(t, n.List, n.Gdef, n.Alphabet, n.NumCtx, "nested-coherent")
+		runNested(t, n.List, n.Gdef, n.Alphabet, n.NumCtx, "nested-coherent", n.Patterns)
 	})
 }
 
-func runNested(t *rapid.T, ll gtab.LookupList, gd *gdef.Table, alpha []glyph.ID, nCtx int, sub string) {
+func runNested(t *rapid.T, ll gtab.LookupList, gd *gdef.Table, alpha []glyph.ID, nCtx int, sub string, patterns [][]glyph.ID) {
 	{
 		c := &listCase{
 			env:  &lookups.Env{Alphabet: alpha, Gdef: gd},
@@ -136,6 +136,31 @@ func runNested(t *rapid.T, ll gtab.LookupList, gd *gdef.Table, alpha []glyph.ID,
 		}
 		if err := rec(nil); err != nil {
 			t.Fatalf("%v\n%s", err, c)
+		}
+		// longer texts: the patterns of the rules (backtrack, input,
+		// lookahead; ligature components) strung together, with marks and
+		// other glyphs drawn into the gaps
+		for i := 0; i < 24 && len(patterns) > 0; i++ {
+			var text []glyph.ID
+			for k := rapid.IntRange(1, 3).Draw(t, "nPieces"); k > 0 && len(text) < 9; k-- {
+				if rapid.IntRange(0, 4).Draw(t, "piece") == 0 {
+					text = append(text, rapid.SampledFrom(alpha).Draw(t, "filler"))
+					continue
+				}
+				for _, x := range rapid.SampledFrom(patterns).Draw(t, "pattern") {
+					if rapid.IntRange(0, 3).Draw(t, "gap") == 0 {
+						text = append(text, rapid.SampledFrom(alpha).Draw(t, "gapGlyph"))
+					}
+					text = append(text, x)
+				}
+			}
+			if len(text) <= 4 {
+				continue // covered by the enumeration above
+			}
+			stats.Label(sub, fmt.Sprintf("pattern-text-length-%d", min(len(text), 9)))
+			if err := c.compare(text); err != nil {
+				t.Fatalf("%v\n%s", err, c)
+			}
 		}
 		stats.LabelN(sub, "applications", c.applied)
 		stats.LabelN(sub, "applications-undefined", c.undef)
